@@ -215,6 +215,65 @@ def concrete_playback(crate, harness, timeout=900):
     return (tests[0] if tests else None), out, res.get(harness)
 
 
+RE_PB_HEAD = re.compile(r"Concrete playback unit test for `([^`]+)`:\s*\n```\n(.*?)```", re.S)
+
+
+def concrete_playback_batch(crate, harnesses, timeout=2400, jobs=8):
+    """One re-run of all failing harnesses asking for concrete values.
+    Returns ({harness: test_source}, raw_output)."""
+    res, wall, out = run(crate, harnesses, jobs=jobs, timeout=timeout,
+                         extra=["-Z", "concrete-playback", "--concrete-playback=print"])
+    tests = {}
+    for full, src in RE_PB_HEAD.findall(out):
+        if "kani::concrete_playback_run" not in src:
+            continue
+        for h in harnesses:
+            if full == h or full.endswith("::" + h):
+                tests.setdefault(h, src)   # first test (first failed check) of the harness
+    return tests, out
+
+
+def native_replay_batch(crate, tests, timeout=1200):
+    """Runs all playback tests natively in one `cargo kani playback`; returns {harness: (confirmed, output_tail)}."""
+    if not tests:
+        return {}
+    names = {}
+    body = ""
+    for h, src in tests.items():
+        m = RE_TESTNAME.search(src)
+        if not m:
+            continue
+        names[h] = m.group(1)
+        body += src + "\n"
+    pb = os.path.join(BUILD, "playback")
+    os.makedirs(pb, exist_ok=True)
+    cur = os.path.join(pb, "current.rs" if crate == "proto" else "current_driver.rs")
+    c = CRATES[crate]
+    cmd = ["cargo", "kani", "playback", "-Z", "concrete-playback", "-p", c["pkg"], *c["features"], "--", "kani_concrete_playback"]
+    env = dict(ENV, CARGO_TARGET_DIR=c["target"] + "-playback")
+    out = ""
+    with Lock(crate + "-playback"):
+        try:
+            with open(cur, "w") as f:
+                f.write(body)
+            p = subprocess.run(cmd, cwd=REPO, env=env, stdout=subprocess.PIPE, stderr=subprocess.STDOUT,
+                               timeout=timeout, text=True, errors="replace")
+            out = p.stdout
+        except subprocess.TimeoutExpired:
+            out = "playback timed out"
+        finally:
+            with open(cur, "w") as f:
+                f.write("")
+    res = {}
+    for h, name in names.items():
+        m = re.search(r"test \S*%s \.\.\. (\w+)" % re.escape(name), out)
+        if m:
+            res[h] = (m.group(1) == "FAILED", out[-2500:])
+        else:
+            res[h] = (None, out[-2500:])
+    return res
+
+
 def native_replay(crate, test_source, timeout=900):
     """Executes the solver's values against the real code, natively (`cargo kani playback`).
     Returns (confirmed: bool|None, output)."""
